@@ -16,7 +16,7 @@ import (
 
 func (V *Verifier) newX(fn *ssa.Function, key string, ct *Contract) *X {
 	return &X{V: V, fn: fn, key: shortKey(key), ct: ct, inlined: map[string]bool{}, externs: map[string]bool{}, assumed: map[string]bool{},
-		callCnt: map[string]int{}, nameCnt: map[string]int{}, sums: map[string]*SumFn{}, maxPaths: 400}
+		callCnt: map[string]int{}, nameCnt: map[string]int{}, opqNils: map[string]string{}, sorts: map[string]string{}, sums: map[string]*SumFn{}, maxPaths: 400}
 }
 
 func shortKey(k string) string {
